@@ -59,8 +59,13 @@ def rand_entry(r, k, names):
         nm, utf8 = b"\xff\xfe-bad-utf8-%d" % k, True                  # invalid UTF-8 under the flag: lossy decoding
     names.append((nm, utf8))
     e["name"], e["utf8"] = nm, utf8
-    e["method"] = r.choice([0, 8, 8, 12, 0, 8, 14])
+    e["method"] = r.choice([0, 8, 8, 12, 0, 8, 14, 93, 93])
     e["data"] = b"" if nm.endswith(b"/") else payload(r)
+    if e["method"] == 93:
+        # a zstd payload is a sequence of frames: other producers (pzstd, streaming encoders that flush into new frames) emit
+        # several, possibly with skippable frames in between; resolve_zstd() turns this into e["raw"]
+        e["zframes"] = r.choice([1, 1, 2, 3])
+        e["zskip"] = r.random() < 0.3
     e["level"] = r.randint(1, 9)
     e["dd"] = r.choice([None, None, None, "sig32", "nosig32", "sig64", "nosig64"])
     e["z64"] = set(x for x in ("usize", "csize", "off") if r.random() < 0.25)
@@ -160,3 +165,24 @@ def from_producer_case(sc, A):
     d = {"entries": ents, "prefix": b"\x07" * A["prefix"], "gaps": [b"\x01" * g for g in A["gaps"]],
          "order": [i - 1 for i in A["order"]]}
     return scenario(sc, d)[0]
+
+
+def resolve_zstd(descs, harness_bin):
+    """entries with method 93 get their compressed bytes ("raw") from the harness's zstd helper (the zstd crate as a trusted
+    codec; CPython has none): the payload is cut into e["zframes"] pieces, each compressed as its own frame"""
+    import json
+    import subprocess
+    todo = [e for d in descs for e in d["entries"] if e.get("method") == 93 and "raw" not in e and "enc" not in e]
+    if not todo:
+        return
+    lines = []
+    for e in todo:
+        data, n = e.get("data", b""), max(1, e.get("zframes", 1))
+        step = max(1, (len(data) + n - 1) // n)
+        chunks = [data[i:i + step] for i in range(0, len(data), step)] or [b""]
+        lines.append(json.dumps({"chunks": [c.hex() for c in chunks], "level": e.get("level", 3), "skippable": bool(e.get("zskip"))}))
+    p = subprocess.run([harness_bin, "zstdc"], input="\n".join(lines) + "\n", stdout=subprocess.PIPE, text=True, check=True)
+    outs = p.stdout.split()
+    assert len(outs) == len(todo)
+    for e, h in zip(todo, outs):
+        e["raw"] = bytes.fromhex(h)
